@@ -180,11 +180,30 @@ func TestVerifHTTPProxyRoundTrip(t *testing.T) {
 func TestVerifHTTPProxyMissKeepsNoConnection(t *testing.T) {
 	rec := vNewRecorder(t, "httpleak")
 	defer rec.Close(t)
-	rec.Set("rule", "60 Get calls for absent entries against a back end answering 404 with a body, 60 against one answering 500 with a body, CAS/AC in both modes: afterwards at most a handful of client connections (the idle pool) may be alive")
+	rec.Set("rule", "60 Get calls for absent entries against a back end answering 404 with a body, 60 against one answering 500 with a body, CAS/AC in both modes, and (compressed mode, CAS) 60 against one answering 200 with a stored-blob header stating the logical size 0 or -1 before a 4 MiB body: afterwards at most a handful of client connections (the idle pool) may be alive")
 	for _, mode := range []string{"zstd", "uncompressed"} {
-		for _, status := range []int{404, 500} {
+		for _, status := range []int{404, 500, 2000, 2001} {
+			if status >= 2000 && mode != "zstd" {
+				continue // the stored-blob header is only looked at in v2 (compressed) mode
+			}
 			rec.Case()
 			srv := httptest.NewServer(http.HandlerFunc(func(w http.ResponseWriter, r *http.Request) {
+				if status >= 2000 {
+					// 200 with a stored-blob header the client must refuse (logical size 0 / negative),
+					// followed by a body far larger than any buffer: only Close gives the connection back
+					hdr := make([]byte, 16)
+					copy(hdr, []byte{0xb1, 0xe5, 0x7a, 0x05}) // not looked at by ExtractLogicalSize
+					if status == 2001 {
+						for i := 8; i < 16; i++ {
+							hdr[i] = 0xff
+						}
+					}
+					w.Header().Set("Content-Length", fmt.Sprint(16+(4<<20)))
+					w.WriteHeader(200)
+					_, _ = w.Write(hdr)
+					_, _ = w.Write(make([]byte, 4<<20))
+					return
+				}
 				http.Error(w, "no such object, and here is a body saying so at some length ....................", status)
 			}))
 			u, _ := url.Parse(srv.URL)
@@ -201,7 +220,7 @@ func TestVerifHTTPProxyMissKeepsNoConnection(t *testing.T) {
 			before := count()
 			for i := 0; i < 60; i++ {
 				kind := cache.CAS
-				if i%2 == 1 {
+				if i%2 == 1 && status < 2000 {
 					kind = cache.AC
 				}
 				sum := sha256.Sum256([]byte(fmt.Sprintf("absent-%s-%d-%d", mode, status, i)))
